@@ -9,7 +9,8 @@ Fault-tracking models (C18 step 2, asset side) of
 * `src/exd.rs`  `EXD::read_row` / `read_column`   (offsets, strides, heap scans).
 
 They mirror the **repaired** code (`fixes/C18-02…04`); the `…Unfixed` variants keep the arithmetic
-of the pinned commit for the witness theorems.
+of the pinned commit for the witness theorems.  The texture model includes the block decoders of
+`src/bcn` (`block_decoder!`, `copy_block_buffer`) with every slice / index check they make.
 -/
 namespace Physis.C18Fmt
 open Physis Physis.A Physis.C18Hdr
@@ -76,16 +77,70 @@ def loop8888 (srcLen dstLen : Nat) : Nat → Nat → Res Unit
     if off + 3 < srcLen ∧ off + 3 < dstLen then loop8888 srcLen dstLen n (off + 4)
     else .panic .index
 
+/-! ### the block decoders of `src/bcn` (`block_decoder!`, `copy_block_buffer`) -/
+
+/-- the row loop of `copy_block_buffer`: `image[image_offset .. image_offset + copy_width]` and
+`buffer[buffer_offset .. buffer_offset + copy_width]` (the block buffer has 16 entries) -/
+def copyRows (w imgLen x cw : Nat) : Nat → Nat → Nat → Res Unit
+  | 0, _, _ => .ok ()
+  | r + 1, y, bo =>
+    if y * w + x + cw ≤ imgLen ∧ bo + cw ≤ 16 then copyRows w imgLen x cw r (y + 1) (bo + 4)
+    else .panic .slice
+
+/-- `copy_width = if bw * (bx + 1) > w { w - bw * bx } else { bw }` (the subtraction panics on underflow) -/
+def copyWidth (bx w : Nat) : Res Nat := if 4 * (bx + 1) > w then subC w (4 * bx) else .ok 4
+/-- `copy_height = if bh * (by + 1) > h { h - y_0 } else { bh }` -/
+def copyHeight (byy h : Nat) : Res Nat := if 4 * (byy + 1) > h then subC h (byy * 4) else .ok 4
+
+/-- `copy_block_buffer(bx, by, w, h, 4, 4, buffer, image)` -/
+def copyBlock (bx byy w h imgLen : Nat) : Res Unit :=
+  copyWidth bx w >>= fun cw =>
+  copyHeight byy h >>= fun ch =>
+  copyRows w imgLen (4 * bx) cw ch (byy * 4) 0
+
+/-- one row of blocks: `&data[data_offset..]` must hold the `bs` bytes the block decoder indexes
+(`decode_bc1_block`: `data[0..8]`; `decode_bc3_block` / `decode_bc5_block`: `data[0..16]`);
+the value is the next `data_offset` -/
+def blockRow (dataLen bs w h imgLen byy : Nat) : Nat → Nat → Nat → Res Nat
+  | 0, _, off => .ok off
+  | k + 1, bx, off =>
+    if off + bs ≤ dataLen then
+      match (copyBlock bx byy w h imgLen).out with
+      | .ok _ => blockRow dataLen bs w h imgLen byy k (bx + 1) (off + bs)
+      | .fail e => ⟨.fail e, 0⟩
+      | .fault f => ⟨.fault f, 0⟩
+    else .panic .index
+
+def blockRows (dataLen bs w h imgLen nbx : Nat) : Nat → Nat → Nat → Res Unit
+  | 0, _, _ => .ok ()
+  | j + 1, byy, off =>
+    match (blockRow dataLen bs w h imgLen byy nbx 0 off).out with
+    | .ok off' => blockRows dataLen bs w h imgLen nbx j (byy + 1) off'
+    | .fail e => ⟨.fail e, 0⟩
+    | .fault f => ⟨.fault f, 0⟩
+
+/-- `decode_bc1` / `decode_bc3` / `decode_bc5` (`block_decoder!`): `Err` when the data or the image
+buffer is too small, otherwise every block is decoded and copied -/
+def bcDecode (dataLen w h imgLen bs : Nat) : Res Unit := do
+  let nbx := (w + 3) / 4
+  let nby := (h + 3) / 4
+  let t ← mulC USIZEMAX nbx nby
+  let need ← mulC USIZEMAX t bs
+  if dataLen < need then .fail
+  else do
+    let px ← mulC USIZEMAX w h
+    if imgLen < px then .fail
+    else blockRows dataLen bs w h imgLen nbx nby 0 0
+
 /-- `Texture::decode` (repaired): the payload must hold every 4×4 block before the image is
-allocated.  The block decoders of `src/bcn` (outside C18's anchors) are assumed panic-free under
-their own two preconditions, which are exactly the checks made here (`data.len() ≥ blocks·bs`,
-`image.len() ≥ w·h`); this is listed as an assumption of C18 and exercised by the correspondence. -/
+allocated; then the block decoder runs (`.ok()?`) and the pixels are collected. -/
 def texDecode (srcLen w hgt bs : Nat) : Res Unit := do
   let blocks ← mulQ USIZEMAX ((w + 3) / 4) ((hgt + 3) / 4)
   let need ← mulQ USIZEMAX blocks bs
   Res.guard (decide (need ≤ srcLen))
   let n ← mulQ USIZEMAX w hgt
   vecAlloc n 4                                   -- `vec![0u32; w*h]`
+  bcDecode srcLen w hgt n bs                     -- `decode_func(src, width, height, &mut image).ok()?`
   vecAlloc n 4                                   -- the collected RGBA bytes
 
 def texBody (srcLen : Nat) (h : TexHeader) : Res Unit :=
@@ -139,6 +194,7 @@ def texBodyUnfixed (srcLen : Nat) (h : TexHeader) : Res Unit :=
     -- `decode_func(..).unwrap()`
     let bs := if h.format = 0x3420 then 8 else 16
     Res.require (decide (((h.width + 3) / 4) * ((hgt + 3) / 4) * bs ≤ srcLen)) .unwrap
+    bcDecode srcLen h.width hgt n bs
 
 def texUnfixed (b : Bytes) : Res Unit := do
   let h ← P.run texHeader b
